@@ -876,7 +876,7 @@ func truth(w World, f Facts) Verdict {
 		return Verdict{MustReject: true, Reason: "alg-" + s.AlgClass}
 	}
 	if !contains(w.Allowed, s.Alg) {
-		return Verdict{MustReject: true, Reason: "alg-not-allowed"}
+		return Verdict{MustReject: true, Reason: "alg-not-allowed:" + s.Alg}
 	}
 	embedded := f.Ref == "jwk" || w.KeyRef == "jwk"
 	if w.KeyRef == "kid-xor-jwk" && s.JWK != "" {
@@ -949,6 +949,10 @@ func truthAlgFromKey(w World, f Facts, s SigFacts) Verdict {
 	}
 	if !s.SignedFits {
 		return Verdict{MustReject: true, Reason: "alg-key-mismatch"}
+	}
+	if len(w.Allowed) > 0 && !contains(w.Allowed, s.SignedWith) {
+		// the consumer documents an allow-list: whatever the header says, the signature was really made with another algorithm
+		return Verdict{MustReject: true, Reason: "alg-not-allowed:" + s.SignedWith}
 	}
 	if !s.SignedNat {
 		return Verdict{Reason: "ok-other-alg-of-family"}
